@@ -178,26 +178,39 @@ func emitRules(c *core.Ctx, s *Stage) {
 		c.Undecided("emit-paced", name, s.Fn.Pos(), "frequency parameter not found")
 		return
 	}
-	// the index: the integer loop-carried value passed to Apply
-	var idx *ssa.Phi
+	// the index: the integer loop-carried value passed to Apply - a register of the loop head, or a cell (a captured
+	// variable, a field of the generator's state object)
+	var q Quantity
+	haveQ := false
 	for _, in := range h.Instrs {
 		if phi, ok := in.(*ssa.Phi); ok && phi.Type().String() == "int" {
-			idx = phi
+			q, haveQ = PhiQuantity(g.An, h, phi, nil), true
 		}
 	}
-	if idx == nil {
+	if !haveQ {
+		for _, p := range g.An.Segs[h] {
+			for i := range p.Steps {
+				st := &p.Steps[i]
+				if isApplyRole(st) && len(st.A) > 1 && st.A[1].Op == "load" && len(st.A[1].Args) == 1 && cellAddr(st.A[1].Args[0]) {
+					q, haveQ = CellQuantity(g.An, st.A[1].Args[0]), true
+				}
+			}
+		}
+	}
+	if !haveQ {
 		c.Fail("emit-index", name, g.Fn.Pos(), "no integer loop-carried index")
 		return
 	}
-	sym := g.An.Start[h].Reg(idx)
 	okI, okP := true, true
 	for _, p := range g.An.Segs[nil] {
-		if v, isK := p.PhiOut[idx].IntConst(); !isK || v != 0 {
+		v0 := q.ValueAt(p, len(p.Steps))
+		if v, isK := v0.IntConst(); !isK || v != 0 {
 			okI = false
-			c.Fail("emit-index", name, g.Fn.Pos(), "the index starts at %s, expected 0", short(p.PhiOut[idx]))
+			c.Fail("emit-index", name, g.Fn.Pos(), "the index starts at %s, expected 0", short(v0))
 		}
 	}
 	for _, p := range g.An.Segs[h] {
+		sym := q.StartSym(p)
 		var ap *ir.Step
 		nApply, nSleep := 0, 0
 		sleepBefore := false
@@ -216,7 +229,7 @@ func emitRules(c *core.Ctx, s *Stage) {
 			if isApplyRole(st) {
 				nApply++
 				ap = st
-				if !ir.Same(st.A[1], sym) {
+				if !ir.Same(st.A[1], q.ValueAt(p, i)) {
 					okI = false
 					c.Fail("emit-index", name, st.Pos(), "Apply is called with %s, expected the loop index", short(st.A[1]))
 				}
@@ -228,9 +241,10 @@ func emitRules(c *core.Ctx, s *Stage) {
 			continue
 		}
 		if p.To == h {
-			if d, isK := plusConst(p.PhiOut[idx], sym); !isK || d != 1 {
+			next := q.ValueAt(p, len(p.Steps))
+			if d, isK := plusConst(next, sym); !isK || d != 1 {
 				okI = false
-				c.Fail("emit-index", name, lastPos(p), "on a path back to the loop head the index becomes %s, expected index+1 (an index would be repeated or skipped)", short(p.PhiOut[idx]))
+				c.Fail("emit-index", name, lastPos(p), "on a path back to the loop head the index becomes %s, expected index+1 (an index would be repeated or skipped)", short(next))
 			}
 		}
 		if en := polarity(p, errNilAtom(ap.R, 1)); en > 0 {
